@@ -5,6 +5,7 @@ import (
 	"math/rand/v2"
 	"runtime"
 	"sort"
+	"strconv"
 	"sync"
 	"time"
 
@@ -602,6 +603,23 @@ func RunTwoNodeC30(r *vf.Run) {
 				r.Count("two_node_control_loops_seen_parked_in_stalled_send_"+role, int(t.Nodes[ni].StalledSends.Load()))
 			}
 		}
+		if s.IsMany() {
+			a, b := s.manySizes()
+			r.Count("two_node_many_solicitation_scenarios", 1)
+			r.Distinct("many_solicitation_set_sizes_per_node", strconv.Itoa(a))
+			r.Distinct("many_solicitation_set_sizes_per_node", strconv.Itoa(b))
+			for _, c := range []int{a, b} {
+				if c > 240 {
+					r.Count("two_node_nodes_with_241_to_256_solicitations_on_one_link", 1)
+				}
+				if c == ManyLimit {
+					r.Count("two_node_nodes_with_exactly_256_solicitations_on_one_link", 1)
+				}
+			}
+			if a >= 200 && b >= 200 {
+				r.Count("two_node_many_solicitation_scenarios_both_nodes_200_or_more", 1)
+			}
+		}
 		if s.Dynamic {
 			r.Count("two_node_scenarios_dynamic", 1)
 		}
@@ -715,6 +733,8 @@ func RunTwoNodeC30(r *vf.Run) {
 						mkey := "two-node/missing-match"
 						if mergedCls != "" {
 							mkey += "/" + mergedCls
+						} else if s.IsMany() {
+							mkey = "two-node/missing-match/many-solicitations-on-the-link"
 						} else if rel, _, _ := s.setChangeStats(); rel > 0 {
 							mkey = "two-node/missing-match/after-solicitation-set-change"
 						} else {
@@ -754,6 +774,16 @@ func RunTwoNodeC30(r *vf.Run) {
 	// interleave the two families so that every batch holds both
 	crng.Shuffle(len(more), func(i, j int) { more[i], more[j] = more[j], more[i] })
 	runBatches(r, "/derivation+set-change", more, rng, 32, eval)
+
+	// MANY-SOLICITATIONS block (one batch in the quick tier): 200..256 requests
+	// (the default limit of hashes per exchange; never more) admitted on one link on
+	// one or both nodes, a few of them shared.
+	mrng := r.Rand("c30-two-node-many-solicitations")
+	var many []*Scenario
+	for k, nm := 0, r.N(4, 48); k < nm; k++ {
+		many = append(many, GenManyScenario(mrng, k))
+	}
+	runBatches(r, "/many-solicitations", many, rng, 4, eval)
 }
 
 // RunTwoNodeC31 is the two-node part of C31: for every physical stream end the
